@@ -18,6 +18,13 @@ ADVERSARIAL = ["1 / 0", "1 % 0", "1 // 0", "1 < 'a'", "'a' < 1", "1 in 2", "[] +
                # symbolic / degenerate iteration spaces of the closed-form rules
                "(x for x in range(1, n, 3))", "[x * x for x in range(0, n, 2)]", "(x for x in range(1, 10, 0))", "(x for x in range(n, 1, -2))", "[x for x in range(1.5)]", "(x * y for x in range(3) for y in range(x))",
                "range(1, 10, 0)", "range(0, 10, n)", "(1 / x for x in range(3))", "[x ** n for x in range(1, 4)]"]
+# import statements in unusual but valid combinations (the sorting / merging / hoisting / tracing rules must not crash on them)
+IMPORT_FORMS = ["from os import path, path as osp\nprint(path, osp)", "from os import path\nfrom os import path as osp\nprint(path, osp)", "import os, os as o\nprint(os, o)", "import os.path, os.path as p\nprint(os, p)",
+                "from os import (path as a, path as b, path)\nprint(a, b, path)", "from . import a, a as b", "from .. import x as y, x", "from __main__ import *\nprint(x)", "from __future__ import annotations\nimport os\nprint(os)",
+                "import os\nimport os\nimport os as os\nprint(os)", "from os import *\nfrom os import path\nprint(path, sep)", "from foo import bar\nfrom foo import baz\nprint(bar, baz)",
+                "import sys\ndef g():\n    from foo import bar\n    return bar\nprint(g())\nfrom foo import baz", "from collections import abc as abc, abc\nprint(abc)", "import a.b.c, a.b, a\nprint(a)",
+                "from os import path as path\nprint(path)", "from os import (\n    path,\n    sep,\n)\nprint(path, sep)", "import os; import sys; from os import path\nprint(os, sys, path)",
+                "try:\n    import tomllib\nexcept ImportError:\n    import tomli as tomllib\nprint(tomllib)", "if True:\n    import os\nelse:\n    import sys as os\nprint(os)"]
 POSITIONS = ["if {e}:\n    print(1)\nelse:\n    print(2)\n", "while {e}:\n    print(1)\n    break\n", "assert {e}\nprint(3)\n", "def g():\n    return 1\nx = {e} and g()\nprint(x)\n",
              "y = [1, 2]\nz = [a for a in y if {e}]\nprint(z)\n", "x = 1 if {e} else 2\nprint(x)\n", "for i in {e}:\n    print(i)\nprint(4)\n", "x = not ({e})\nprint(x)\n",
              "def h():\n    if {e}:\n        return 1\n    return 2\nprint(h())\n", "x = sum({e})\nprint(x)\n", "x = {e} == {e}\nprint(x)\n", "x = [i for i in range({e}) if i > 2]\nprint(x)\n"]
@@ -47,6 +54,11 @@ def inputs(tier, seed):
         for c in containers(st):
             for nl in ("\n", ""):
                 out.append(("last-statement", c + nl, None))
+    for imp in IMPORT_FORMS:
+        for tail in ("print(1)\n", ""):
+            out.append(("imports", imp + "\n" + tail, True))
+            out.append(("imports-indented", "\n".join("    " + l for l in (imp + "\n" + tail).splitlines()) + "\n", None))
+            out.append(("imports-in-function", "def f():\n" + "\n".join("    " + l for l in imp.splitlines()) + "\n    return 1\n\n\nprint(f())\n" + imp + "\n", True))
     for s in INVALID:
         out.append(("invalid", s, False))
     srcs = P.corpus()
